@@ -264,7 +264,7 @@ def gen_external(H, engine, rng, tier, wdroot):
             finish(c, rng.choice([None, 1, 2, 3]), ml, sched, write_rest=False, exit_code=rng.choice([1, 139]),
                    cut=rng.choice(["line", "midline"]))
     # ---- seeded random
-    nrand = 300 if tier == "quick" else 2500
+    nrand = 300 if tier == "quick" else 4000
     for i in range(nrand):
         c = base_case(engine, rng, nat=rng.choice([2, 3, 3, 12] if engine == "gromacs" else [2, 3]))
         c["order"] = rng.choice(ORDERS)
@@ -335,7 +335,7 @@ def inproc_inputs(H, case, ref):
 
 def gen_inproc(H, I, engine, rng, tier, wdroot):
     cases = []
-    n = {"quick": 150, "thorough": 800}[tier]
+    n = {"quick": 150, "thorough": 1200}[tier]
     for i in range(n):
         sub = 1 + i % 3 if engine != "plugin" else 1
         ml = rng.randrange(1, 8)
